@@ -249,7 +249,7 @@ impl Check for C06 {
         vec!["a refused first hop is not a violation (counted)".into(), "K5 (toml crate ordering of nested arrays containing tables) is excluded from the TOML value-level round trip by its input-side predicate".into()]
     }
     fn units(&self, tier: Tier) -> Vec<Unit> {
-        vec![Unit::gen("gen", 16, tier.pick(40_000, 250_000)), Unit::enumerate("scalar_sweep", 16)]
+        vec![Unit::gen("gen", 16, tier.pick(40_000, 250_000)), Unit::enumerate("scalar_sweep", 16), Unit::enumerate("wide", 16)]
     }
     fn required_classes(&self, _tier: Tier) -> Vec<&'static str> {
         vec!["fixed_point_checked", "round_trip_checked", "extension_value", "pair:json->toml", "pair:toml->yaml", "pair:msgpack->json", "pair:yaml->msgpack"]
@@ -257,6 +257,25 @@ impl Check for C06 {
     fn run_unit(&self, unit: &Unit, shard: u32, seed: u64, _tier: Tier, rec: &mut Recorder) {
         match unit.name {
             "gen" => run_prop(rec, seed, unit.cases, case_strategy(), |c| c.to_json("gen"), check_case),
+            "wide" => {
+                // (lengths above 5000 are left to C01's 'wide' unit: the second pass of
+                // the fixed-point oracle makes them expensive here)
+                for (i, (name, v)) in crate::checks::c01::wide_values().into_iter().filter(|(n, _)| n.rsplit('_').next().and_then(|d| d.parse::<usize>().ok()).map_or(false, |d| d <= 5000)).enumerate() {
+                    if i as u32 % unit.shards != shard {
+                        continue;
+                    }
+                    for a in FORMATS {
+                        for b in FORMATS {
+                            let c = Case { v: v.clone(), a, b, style: Style::canonical(), mode1: if i % 2 == 0 { Mode::Slice } else { Mode::Reader(crate::sio::Sched::Fixed(8192)) }, mode2: Mode::Reader(crate::sio::Sched::Fixed(4096)) };
+                            rec.class("wide");
+                            if let Err(m) = check_case(&c, rec) {
+                                rec.fail(format!("{}: {}", name, m), c.to_json("wide"));
+                                return;
+                            }
+                        }
+                    }
+                }
+            }
             "scalar_sweep" => {
                 let strings = crate::checks::c01::sweep_strings();
                 for (i, s) in strings.iter().enumerate() {
